@@ -213,7 +213,8 @@ pub enum Op {
     /// Store::sync()
     Sync,
     /// outside interference that must not matter: delete (part of) the backup a rebuild left
-    /// behind (0 = event.map.bak, 1 = lmdb.bak, 2 = both)
+    /// behind (0 = event.map.bak, 1 = lmdb.bak, 2 = both), or (3) a plain file put in the place of
+    /// lmdb.bak, which the next rebuild cannot clear away
     RemoveBackup(u8),
     /// the NEXT op is killed at its k-th kill point and the run continues from the
     /// durable state of that instant (crash mode)
